@@ -151,6 +151,23 @@ func runC20(c *Check) {
 		c.Unresolved("R20.2", "blob.(*Service).getAll not found")
 		return
 	}
+	// the retrieval runs under the SUBSCRIBER's context (so that cancelling the subscription ends an
+	// in-flight retrieval), not under the service's
+	for _, b := range body.Blocks {
+		for _, ins := range b.Instrs {
+			g, ok := ins.(*ssa.Call)
+			if !ok || g.Call.StaticCallee() != getAll {
+				continue
+			}
+			sl := backSlice(g.Call.Args[1], SliceOpt{ThroughFreeVars: true})
+			fromSub := sl.Has(func(v ssa.Value) bool {
+				pr, ok := v.(*ssa.Parameter)
+				return ok && pr.Name() == "ctx" && pr.Parent() == rootFunc(body)
+			})
+			c.Ob("R20.5", "retrieval runs under the subscriber's context", fromSub && !sl.HasFieldNamed("Service", "ctx"), p.Pos(g.Pos()),
+				"the context handed to getAll derives from Subscribe's ctx parameter and not from the service context")
+		}
+	}
 	for _, b := range body.Blocks {
 		for _, ins := range b.Instrs {
 			st, ok := ins.(*ssa.Store)
